@@ -3655,7 +3655,23 @@ fn create_joined_batch(
     // across every column — gather_column was rebuilding the u32 index vec
     // per column.
     let build_columns: Result<Vec<ArrayRef>> = if build_batches.is_empty() {
-        Ok(vec![])
+        // The build input produced no batch at all: every build index is the NULL sentinel
+        // (the unmatched probe rows of a probe-preserving join). The build side contributes
+        // all-NULL columns typed by the output schema's build fields. (`Ok(vec![])` made
+        // RecordBatch::try_new reject the column count, failing LEFT / FULL joins whose
+        // build side is empty.)
+        let n_probe = probe_batch.num_columns();
+        let fields = output_schema.fields();
+        let n_build = fields.len().saturating_sub(n_probe);
+        let build_fields = if swapped {
+            &fields[fields.len() - n_build..]
+        } else {
+            &fields[..n_build]
+        };
+        Ok(build_fields
+            .iter()
+            .map(|f| arrow::array::new_null_array(f.data_type(), build_indices.len()))
+            .collect())
     } else if let Some((store, row_offsets)) = row_store {
         if build_indices.iter().any(|&(b, _)| b == usize::MAX) {
             // Null sentinels (defensive: not produced on Inner paths) —
